@@ -1,4 +1,5 @@
 mod args;
+mod builders;
 mod codec;
 mod decode;
 mod identc;
@@ -22,6 +23,7 @@ fn main() {
     let start = std::time::Instant::now();
     let rep = match a.cmd.as_str() {
         "codec" => codec::run(&a),
+        "builders" => builders::run(&a),
         "decode" => decode::run(&a),
         "schema" => schema::run(&a),
         "retain" => retain::run(&a),
@@ -37,6 +39,7 @@ fn main() {
     v["cmd"] = json!(a.cmd);
     v["wall_s"] = json!(start.elapsed().as_secs_f64());
     v["hooks"] = json!(vcommon::HAVE_HOOKS);
+    v["docs_feature"] = json!(cfg!(feature = "docs"));
     let out = a.s("out", "-");
     let text = serde_json::to_string(&v).unwrap();
     if out == "-" {
